@@ -60,6 +60,8 @@ async fn read_n_bytes(stream: &mut ActorReadHalf, len: usize) -> Result<Vec<u8>,
             )
         })?;
         buf.extend_from_slice(&chunk[..n]);
+        #[cfg(ractor_verif)]
+        ractor::verif::emit("frame.buf", len as u64, buf.len() as i64);
     }
     Ok(buf)
 }
@@ -407,6 +409,8 @@ async fn read_network_message(
     let wire_length = stream.read_u64().await?;
     tracing::trace!("Payload length message ({wire_length}) received");
 
+    #[cfg(ractor_verif)]
+    ractor::verif::emit("frame.len", wire_length, 0);
     let frame_length = checked_frame_length(wire_length, max_frame_size)?;
     let bytes = Bytes::from(read_n_bytes(stream, frame_length).await?);
     tracing::trace!("Payload of length({}) received", bytes.len());
@@ -490,6 +494,38 @@ impl Actor for SessionReader {
         }
         Ok(())
     }
+}
+
+/// cfg-only: a frame reader over any byte source, using the session's own framing code
+#[cfg(ractor_verif)]
+#[allow(missing_debug_implementations, missing_docs)]
+pub struct VerifFrameReader(ActorReadHalf);
+
+#[cfg(ractor_verif)]
+#[allow(missing_docs)]
+impl VerifFrameReader {
+    pub fn new(reader: super::BoxRead) -> Self {
+        Self(ActorReadHalf::External(reader))
+    }
+}
+
+/// cfg-only: read one frame exactly as the session reader does
+#[cfg(ractor_verif)]
+#[allow(missing_docs)]
+pub async fn verif_read_frame(
+    reader: &mut VerifFrameReader,
+    max_frame_size: u64,
+) -> tokio::io::Result<crate::protocol::NetworkMessage> {
+    read_network_message(&mut reader.0, max_frame_size).await
+}
+
+/// cfg-only: encode one frame exactly as the writer task does
+#[cfg(ractor_verif)]
+#[allow(missing_docs)]
+pub fn verif_encode_frame(msg: &crate::protocol::NetworkMessage) -> Vec<u8> {
+    let mut buf = Vec::new();
+    encode_network_message(msg, &mut buf);
+    buf
 }
 
 #[cfg(test)]
